@@ -32,7 +32,14 @@ def run(ctx):
         else:
             raise vlib.Inconclusive("side-by-side harness failed:\n" + txt[-2000:])
     res.extra["reads_side_by_side"] = len(sevs)
-    evs = evs + sevs
+    # the constructors of pub are readers too: every systematic object (1 700 single deviations of the vocabulary) is built, exercised
+    # and compared with what it was
+    uevs, _, _ = run_harness(ctx, "pub", "TestVerifUnchanged", {}, timeout=1500, name="unchanged")
+    uevs = [e for e in uevs if e["ev"] == "accessor"]
+    if len(uevs) < 1000:
+        raise vlib.Inconclusive("the unchanged-document driver produced %d cases" % len(uevs))
+    res.extra["documents_compared_after_construction"] = len(uevs)
+    evs = evs + sevs + uevs
     bad, r2 = vlib.judge(ctx, "T_Values", "T_Values.cfg", evs)
     res.traces = len(evs)
     for e in evs:
